@@ -10,6 +10,34 @@ Everything the driver sees that was not minted by an instrument is recorded as a
 from __future__ import annotations
 
 import itertools
+import sys
+
+
+# Event loops install asynchronous-generator hooks: a generator that is garbage collected
+# while suspended is not closed on the spot (that cannot await anything) but handed to the
+# loop, which closes it *later*.  The harness does the same: finalisation is deferred until
+# `drain_asyncgens` -- after the lifecycles a property talks about have been observed.
+PENDING_ASYNCGENS = []
+
+
+def _finalizer(agen):
+    PENDING_ASYNCGENS.append(agen)
+
+
+sys.set_asyncgen_hooks(firstiter=None, finalizer=_finalizer)
+
+
+def drain_asyncgens(acct=None):
+    """Close the async generators the garbage collector handed over (like loop.shutdown_asyncgens)."""
+    n = 0
+    while PENDING_ASYNCGENS:
+        agen = PENDING_ASYNCGENS.pop()
+        n += 1
+        try:
+            Task(agen.aclose(), acct or Accounting()).run()
+        except BaseException:  # noqa: BLE001
+            pass
+    return n
 
 
 class Token:
